@@ -1,0 +1,8 @@
+//go:build verif
+
+package clocks
+
+// VerifNewTicker lets the verification harness implement Clock with a ticker whose Stop is observable.
+func VerifNewTicker(cancel func(), trigger func()) *Ticker {
+	return &Ticker{cancel: cancel, trigger: trigger}
+}
